@@ -57,6 +57,7 @@ def case_loader(seed, out, spec):
     custom_cfg = {}
     names = []
     expect = []   # (name, order)
+    ambiguous = set()   # plugins whose activation the documentation does not settle
     n = r.randrange(0, 7)
     for i in range(n):
         c = r.randrange(10)
@@ -75,8 +76,23 @@ def case_loader(seed, out, spec):
             names.append('vf.plugins.' + nm)
             off = r.pick(['false', 'False', 'no', '0'])
             custom_cfg[('plugin_%s' % nm).upper()] = off
-        elif c == 7:
+        elif c == 7 and r.chance(0.5):
             names.append(r.pick(['no.such.module.Plugin', 'vf.nope.X', 'os.path.NotThere']))
+        elif c == 7:
+            # switched off / on with a real boolean instead of text, or a plugin whose activity check itself fails
+            order = r.randrange(3)
+            cls = plugins.make(nm, ['dec'], order=order)
+            names.append('vf.plugins.' + nm)
+            how = r.pick(['bool_false', 'bool_true', 'raises'])
+            if how == 'bool_false':
+                custom_cfg[('plugin_%s' % nm).upper()] = False
+            elif how == 'bool_true':
+                custom_cfg[('plugin_%s' % nm).upper()] = True
+                ambiguous.add(nm)
+            else:
+                def broken(self):
+                    raise RuntimeError('cannot tell whether %s is active' % nm)
+                cls.is_active = broken
         elif c == 8:
             names.append('vf.plugins.MissingClass%d' % i)
         else:
@@ -98,7 +114,7 @@ def case_loader(seed, out, spec):
         return
     got = [(p.name, p.order() or 0) for p in loaded]
     witness['loaded'] = got
-    mine = [g for g in got if g[0].startswith('Load')]
+    mine = [g for g in got if g[0].startswith('Load') and g[0] not in ambiguous]
     if sorted(mine) != sorted(expect):
         missing = sorted(set(expect) - set(mine))
         extra = sorted(set(mine) - set(expect))
@@ -116,7 +132,7 @@ def case_loader(seed, out, spec):
             'loaded' if py else 'missing', custom_cfg.get('PLUGIN_PYTHONPLUGIN')), witness, replay)
         return
     out.count('loader_sets')
-    out.case({'names': [n_.split('.')[-1][:4] + n_[-2:] for n_ in names], 'cfg': sorted(custom_cfg.values()),
+    out.case({'names': [n_.split('.')[-1][:4] + n_[-2:] for n_ in names], 'cfg': sorted(map(str, custom_cfg.values())),
               'exp': [o for _, o in expect]}, nontrivial=len(expect) < n or builtin_off,
              sample={'configured': names, 'switches': custom_cfg, 'loaded': got})
 
